@@ -29,6 +29,8 @@ EXPLANATION = (
 )
 TECHNIQUE += '; class-level mutable attribute scan'
 EXPLANATION += ' R3 also rejects mutable values in class-level attributes (shared by all instances).'
+TECHNIQUE += '; key-completeness rule for local memo tables'
+EXPLANATION += ' R3 also runs the local-memo rule over all package functions.'
 TRUSTED = ["CPython ast parser", "module-level code runs once at import", "warnings.catch_warnings restores the filter state on exit"]
 
 AMBIENT = {
@@ -200,6 +202,9 @@ def run(ctx):
                     ctx.violate("R3", f"class {cinfo.name} keeps a mutable value in the class-level attribute `{tgt}`: it is one object shared by every instance (two open files / objects alive at once corrupt each other)", relpath=cinfo.module.relpath, function=cinfo.qualname, node=st, construct=f"class-level mutable {tgt}")
     ctx.ok("R3", f"{ncls} classes: no class-level mutable attribute values", "iodata/")
     ctx.floor("R3", ncls, 12, "package classes")
+    from .memo import check_local_memos
+
+    check_local_memos(ctx, "R3", list(pkg), "package functions")
 
     # ------------------------------------------------------------------ R4 / R5
     ctx.rule("R4", "no ambient inputs reachable from the API", "output depends on clock, RNG, environment or object identity")
